@@ -127,8 +127,8 @@ def run(chk: Check, drv: Driver):
         by_pr.setdefault(id(pr), (pr, []))[1].append((sizes, ins, r))
     for pr, lst in by_pr.values():
         inputs_list = [ins for _, ins, _ in lst]
-        res_l = WORKER.run(pr.text, pr.fs, inputs_list, "llvm", timeout=120)
-        res_c = WORKER.run(pr.text, pr.fs, inputs_list, "cffi", timeout=120)
+        res_l = WORKER.run(pr.text, pr.fs, inputs_list, "llvm", timeout=240)
+        res_c = WORKER.run(pr.text, pr.fs, inputs_list, "cffi", timeout=240)
         for which, res in (("llvm", res_l), ("cffi", res_c)):
             if res[0] != "ok":
                 chk.violation(f"{which} back end: {res[0]} {res[1:3]}", pr.case(*lst[0][:2]))
